@@ -7,6 +7,7 @@ import (
 	"runtime"
 	"strings"
 	"sync"
+	"sync/atomic"
 	"testing"
 	"testing/synctest"
 	"time"
@@ -104,7 +105,7 @@ func templates(variant int, r *rand.Rand) *scenario {
 	default: // complete piece: evict || read || re-add
 		s := append(append([]op(nil), fill...), op{K: opFin, P: p, Var: "right"})
 		return &scenario{Name: "complete:expire||read||readd", Geo: g, Setup: s,
-			Workers: [][]op{{{K: opExpire, Target: 0}, rd}, {rd, rd2}, {{K: opAdd, P: p, B: 0, Var: "valid"}, {K: opUpd, P: p}}}, FinalDel: true}
+			Workers: [][]op{{{K: opExpire, Target: 0}, rd}, {rd, rd2}, {{K: opAdd, P: p, B: 0, Var: []string{"valid", "corrupt"}[(variant/2)%2]}, {K: opUpd, P: p}}}, FinalDel: true}
 	}
 }
 
@@ -584,6 +585,14 @@ func uaf(t *testing.T, r *vk.Run, prop string) {
 		stop := make(chan struct{})
 		var wg sync.WaitGroup
 		nr := 2 + rng.IntN(5)
+		// every 16th ReadAt lingers between its look at the piece and taking the lock (yield point
+		// piece.readat.prelock), long enough for an eviction and the start of a refill
+		var tick atomic.Int64
+		verifhook.SetPoint(func(name string) {
+			if name == "piece.readat.prelock" && tick.Add(1)%16 == 0 {
+				time.Sleep(time.Duration(20+tick.Load()%200) * time.Microsecond)
+			}
+		})
 		var reads, withData int64
 		var cmu sync.Mutex
 		for w := 0; w < nr; w++ {
@@ -633,6 +642,7 @@ func uaf(t *testing.T, r *vk.Run, prop string) {
 		}
 		close(stop)
 		wg.Wait()
+		verifhook.SetPoint(nil)
 		c.Count("uaf_reads", reads)
 		c.Count("uaf_reads_with_data", withData)
 		s.exec(90, op{K: opDel}, 0)
